@@ -270,8 +270,10 @@ func c11Record(args []string) *Result {
 				res.Error = "unexpected outcome while recording: " + o.Res
 				return res
 			}
-			if corrupt && events == 7 {
+			if corrupt && events >= 7 && ev.Res == "ok" {
+				// the first accepted token at or behind event 7 (a rejection logs no node count)
 				ev.N += 1
+				corrupt = false
 			}
 			w.write(ev)
 			events++
